@@ -244,7 +244,14 @@ def check_function(ctx, spec, rng, ci):
 
     taggings = [frozenset(nm for nm, bit in zip(leaves, bits) if bit) for bits in itertools.product([0, 1], repeat=L)]
 
+    # tag representation: the exported singletons, or equal-but-distinct instances (what any pytree
+    # round trip of a Diff / argdiff tree produces: tree_map, jit / vmap / scan boundaries)
+    rebuilt_tags = ci % 3 == 1
+
     def tangents_for(U):
+        if rebuilt_tags:
+            ctx.count("taggings_with_rebuilt_tag_instances")
+            return jtu.tree_map(lambda t: type(t)(), G.tag_tree(spec, {nm: (nm in U) for nm in leaves}, NoChange, UnknownChange), is_leaf=lambda t: isinstance(t, (NoT, UnT)))
         return G.tag_tree(spec, {nm: (nm in U) for nm in leaves}, NoChange, UnknownChange)
 
     def desc(U):
